@@ -132,7 +132,16 @@ def validate(rep, exe, plans, prop, judge=True, expand=True, excuse=None):
             lean_reqs.append(req)
             where.append((pi, fi))
     lres = C.run_lean(lean_reqs) if lean_reqs else []
-    for (pi, fi), resp in zip(where, lres):
+    # ExpandOK evaluated by the Lean checker (ExpandOK.lean `expandOKCore`, the subject of C01_expandOK_of_expand) on the real trees
+    xreqs = []
+    if expand:
+        for (pi, fi) in where:
+            d = dumps[pi]
+            g, fam = d.groups[fi], d.families[fi]
+            xreqs.append("expandok " + " ".join([sexpr(g["gid"]), sexpr(g["idents"]), sexpr(g["payloads"]), sexpr(fam["main"])]
+                                                 + [sexpr(h) for h, _ in fam["helpers"]] + ["--"] + [sexpr(x) for x in g["items"]]))
+    xres = C.run_lean(xreqs) if xreqs else [None] * len(where)
+    for (pi, fi), resp, xresp in zip(where, lres, xres):
         plan, d = plans[pi], dumps[pi]
         g, fam = d.groups[fi], d.families[fi]
         v = parse_sexpr(resp)
@@ -162,7 +171,17 @@ def validate(rep, exe, plans, prop, judge=True, expand=True, excuse=None):
                 rep.count("shape:sized-compat-fails (C15's subject)")
         # ExpandOK: structural comparison of the generated items with the abstract program of Sem.lean
         if expand:
-            problems += expand_ok(d, g, fam, thetas, nkeys, fi)
+            py_problems = expand_ok(d, g, fam, thetas, nkeys, fi)
+            problems += py_problems
+            xv = parse_sexpr(xresp) if xresp else None
+            if xv and xv[0] == "expandok":
+                rep.count("shape:expandOK(lean)=" + str(xv[1]))
+                # the Lean checker is the one the theorem is about; the Python one gives the messages: they must agree
+                if (xv[1] == "1") != (not py_problems):
+                    rep.disagreements.append({"what": "ExpandOK: Lean checker and Python checker disagree (harness defect)", "lean": str(xv)[:300],
+                                              "python": py_problems[:4], "invocation": plan.invocation_text()[:3000], "family": fi})
+            else:
+                rep.disagreements.append({"what": "expandok request rejected by the model", "resp": str(xresp)[:200]})
         if problems and judge and excuse is not None:
             fid = excuse(plan, problems)
             if fid:
